@@ -99,13 +99,13 @@ def find_fn(F, path):
     return []
 
 
-def run(F, rep, ctx):
-    table = ctx.rules("guards_c03.json")["instances"]
+def run(F, rep, ctx, prefix="C03", only=None):
+    table = [i for i in ctx.rules("guards_c03.json")["instances"] if only is None or i["id"] in only]
     n_ok = 0
     for inst in table:
         fns = find_fn(F, inst["fn"])
         label = inst["label"]
-        key = "C03.guard|%s" % inst["id"]
+        key = prefix + ".guard|%s" % inst["id"]
         if not fns:
             raise AnchorMissing(inst["fn"])
         verdicts = []
@@ -150,7 +150,7 @@ def run(F, rep, ctx):
                     v, info = ("violated" if bad else "ok"), {"tests": n, "unguarded_targets": bad}
             verdicts.append((f, v, info))
         if not verdicts:
-            rep.ob("C03.guard", label, "violated", "no call of %s guards this construct in %s any more" % (inst["pred"], inst["fn"]), fns[0].span,
+            rep.ob(prefix + ".guard", label, "violated", "no call of %s guards this construct in %s any more" % (inst["pred"], inst["fn"]), fns[0].span,
                    fn=fns[0].path, key=key)
             continue
         # for closure families: the instance holds if it holds in every closure that calls the predicate
@@ -161,7 +161,7 @@ def run(F, rep, ctx):
             elif v == "undecided" and worst == "ok":
                 worst = "undecided"
         f, v, info = next((x for x in verdicts if x[1] == worst), verdicts[0])
-        rep.ob("C03.guard", label, worst, str(info), f.span, fn=f.path, key=key)
+        rep.ob(prefix + ".guard", label, worst, str(info), f.span, fn=f.path, key=key)
         if worst == "ok":
             n_ok += 1
-    rep.floor("C03.guard instances", len(table), 15)
+    rep.floor(prefix + ".guard instances", len(table), 15 if only is None else len(only))
